@@ -58,7 +58,15 @@ class SymDT:
     def __sub__(self, other):
         if isinstance(other, datetime.timedelta):
             return SymDT(self.s - td_secs(other), self.tzinfo)
+        if isinstance(other, datetime.datetime) and other.tzinfo is None and self.tzinfo is None:
+            return SymTD(self.s - secs_of(other))
+        if isinstance(other, SymDT) and (other.tzinfo is None) == (self.tzinfo is None):
+            a, b = self._key(other)
+            return SymTD(a - b)
         raise symx.ShimGap('SymDT - %r' % type(other).__name__)
+
+    def date(self):
+        return SymDate(self.s // 86400)
 
     def _key(self, other):
         if isinstance(other, SymDT):
@@ -121,6 +129,42 @@ class SymDT:
 
     def __repr__(self):
         return 'SymDT(%r, %r)' % (self.s, self.tzinfo)
+
+
+class SymTD:
+    """timedelta with a symbolic number of whole seconds."""
+
+    def __init__(self, secs):
+        self.secs = secs
+
+    def total_seconds(self):
+        return self.secs
+
+    @property
+    def days(self):
+        return self.secs // 86400
+
+    @property
+    def seconds(self):
+        return self.secs % 86400
+
+    microseconds = 0
+
+
+class SymDate:
+    """Calendar date of a symbolic datetime; hashing it concretises the day number."""
+
+    def __init__(self, day):
+        self.day = day
+
+    def __hash__(self):
+        return hash(int(self.day)) if isinstance(self.day, symx.Sym) else hash(self.day)
+
+    def __eq__(self, other):
+        return isinstance(other, SymDate) and bool(self.day == other.day)
+
+    def __ne__(self, other):
+        return not self.__eq__(other)
 
 
 class _DatetimeClass:
@@ -213,6 +257,73 @@ def harness_tz(eng, ctx):
                 eng.note({'t': 'witness_mismatch', 'v': info})
             elif eng.stats.paths % 45 == 0:
                 eng.note({'t': 'sample', 'v': info})
+
+
+def harness_tz2(eng, ctx):
+    """Two rows of one file, a little apart, around a transition of the zone: every row must
+    be converted as if it were alone."""
+    import pytz
+    nplite.set_float_mode('R')
+    tz = pytz.timezone(ctx['zone'])
+    table = zone_table(tz)
+    starts = [t for t, _ in table]
+    L1 = eng.int('wall_clock_s')
+    d = eng.int('gap_s')
+    lo, hi = ctx['range']
+    eng.assume(L1 >= lo)
+    eng.assume(L1 <= hi)
+    eng.assume(d >= 1)
+    eng.assume(d <= 7200)
+    L2 = L1 + d
+    shim = DatetimeShim({'<L1>': L1, '<L2>': L2})
+    ld = loader.load('spowtd.load', 'R')
+    saved = ld.datetime_mod
+    ld.datetime_mod = shim
+    try:
+        rows = list(ld.generate_timestamped_rows([['<L1>', 'a'], ['<L2>', 'b']], tz))
+    except symx.ShimGap:
+        raise
+    except Exception as e:
+        raise symx.PathAbort('conversion error paths are the single-row harness\'s business')
+    finally:
+        ld.datetime_mod = saved
+    for (E, L, nm) in ((rows[0][0], L1, 'first'), (rows[1][0], L2, 'second')):
+        idx = 0
+        for i in range(len(table) - 1, -1, -1):
+            if E >= starts[i]:
+                idx = i
+                break
+        off = table[idx][1]
+        if not bool((L - E) == off):
+            exists = z3.Or(*[z3.And(L.z - o >= a, L.z - o < b) for (a, o), b in zip(table, starts[1:] + [10 ** 13])])
+            eng.prove(z3.Not(exists), 'C11: every row of a file is converted exactly, whatever the other rows are',
+                      detail='zone %s, %s of two rows: L - E = %s, offset in force at E is %d s' % (ctx['zone'], nm, L - E, off))
+    eng.note({'t': 'reached'})
+
+
+def replay_tz2(zone, L1, d):
+    import pytz
+    real = loader.real_module('spowtd.load')
+    tz = pytz.timezone(zone)
+    texts = [(EPOCH0 + datetime.timedelta(seconds=x)).strftime('%Y-%m-%d %H:%M:%S') for x in (L1, L1 + d)]
+    info = {'zone': zone, 'rows': texts}
+    try:
+        rows = list(real.generate_timestamped_rows([[texts[0], 'a'], [texts[1], 'b']], tz))
+    except Exception as e:
+        info['error'] = '%s: %s' % (type(e).__name__, e)
+        return False, info
+    table = zone_table(tz)
+    starts = [t for t, _ in table]
+    bad = False
+    info['epochs'] = [r[0] for r in rows]
+    info['rendered_back'] = []
+    for (E, L, text) in ((rows[0][0], L1, texts[0]), (rows[1][0], L1 + d, texts[1])):
+        back = datetime.datetime.fromtimestamp(E, tz).strftime('%Y-%m-%d %H:%M:%S')
+        info['rendered_back'].append(back)
+        exists = any(a <= L - o < b for (a, o), b in zip(table, starts[1:] + [10 ** 13]))
+        if back != text and exists:
+            bad = True
+    return bad, info
 
 
 def replay_tz(zone, L):
@@ -330,10 +441,28 @@ def zone_range(zone, quick):
     return (lo, hi)
 
 
+def _tz2_task(args):
+    zone, rng = args
+    return symx.explore(harness_tz2, {'zone': zone, 'range': rng}, name='two_rows[%s]' % zone, workers=1, wall_limit_s=600, max_paths=20000)
+
+
+def transition_windows(zone, quick):
+    """Wall-clock windows of +-5000 s around the last transitions of the zone before 2024."""
+    import pytz
+    tz = pytz.timezone(zone)
+    table = zone_table(tz)
+    y2024 = secs_of(datetime.datetime(2024, 1, 1))
+    ts = [(t, o) for t, o in table if -10 ** 11 < t < y2024]
+    out = []
+    for t, o in ts[-(2 if quick else 6):]:
+        out.append((t + o - 5000, t + o + 5000))
+    return out
+
+
 def _tz_task(args):
     zone, rng, replay_every = args
     return symx.explore(harness_tz, {'zone': zone, 'range': rng, 'replay_every': replay_every},
-                        name='timezone[%s]' % zone, workers=1, wall_limit_s=1500)
+                        name='timezone[%s]' % zone, workers=1, wall_limit_s=600, max_paths=20000)
 
 
 class C11(Check):
@@ -364,6 +493,11 @@ class C11(Check):
         with mp.get_context('fork').Pool(16) as pool:
             for exp in pool.imap_unordered(_tz_task, tasks):
                 self.absorb(exp, need_paths=1)
+        tasks2 = [(z, w) for z in zones[:10] for w in transition_windows(z, quick)]
+        with mp.get_context('fork').Pool(16) as pool:
+            for exp in pool.imap_unordered(_tz2_task, tasks2):
+                self.absorb(exp, need_paths=1)
+        self.bounds['two rows'] = '%d windows of +-5000 s around zone transitions, second row 1..7200 s later' % len(tasks2)
         ctx = C10.ctx_for(self.tier, self.seed)
         ctx['orders'] = ['sorted']
         ctx['ratios'] = ['1', '2/3']
@@ -377,6 +511,12 @@ class C11(Check):
 
     def replay(self, failure):
         h = failure['harness']
+        if h.startswith('two_rows'):
+            zone = h.split('[')[1].rstrip(']')
+            m = model_fractions(failure.get('model'))
+            bad, info = replay_tz2(zone, int(m.get('wall_clock_s', 0)), int(m.get('gap_s', 1)))
+            info['expected'] = failure.get('detail')
+            return bad, info
         if h.startswith('timezone'):
             zone = h.split('[')[1].rstrip(']')
             m = model_fractions(failure.get('model'))
